@@ -343,6 +343,21 @@ func (u *Unit) doAppend(st *State, fr *Frame, in *ssa.Call, et types.Type, s Sli
 		return []Outcome{{st, SliceV{r, IntK(0), IntK(int64(n + k)), IntK(int64(n + k))}}}, true
 	}
 
+	// A slice whose backing array was allocated by this activation: modelled as growth in place (a single
+	// outcome; reallocation is unobservable unless two slices of the same fresh array are both extended
+	// beyond its capacity — documented deviation, see DESIGN.md)
+	if s.R != nil && s.R.fresh && !s.R.concrete {
+		st.alloc = IntAdd(st.alloc, IntMul(aLen, IntK(esz)))
+		if !u.appendWrite(st, s.R, IntAdd(s.Off, s.Len), et, aR, aOff, aLen) {
+			return nil, false
+		}
+		ncap := s.Cap
+		if !IntLe(nl, s.Cap).IsTrue() {
+			ncap = Fresh("appendcap", SortInt)
+			st.assume(And(IntLe(nl, ncap), IntLe(s.Cap, ncap), IntLe(ncap, IntK(1<<41))))
+		}
+		return []Outcome{{st, SliceV{s.R, s.Off, nl, ncap}}}, true
+	}
 	var outs []Outcome
 	fits := IntLe(nl, s.Cap)
 	// case 1: in place
@@ -616,8 +631,23 @@ func (u *Unit) callByContract(st *State, fr *Frame, in *ssa.Call, fn *ssa.Functi
 			markFresh(u, st, nv) // what the callee stores into *p it allocated itself or got from its arguments
 			st.objs[p.Obj] = setPath(st.objs[p.Obj], p.Path, nv)
 		case ElemPtr:
-			u.unsupported("contract call modifying a region element")
-			return nil, false
+			if p.Nil != nil && !u.require(st, fr, Not(p.Nil), "nil-deref", in) {
+				return nil, true
+			}
+			if !u.writable(p.R) && u.specMode == 0 {
+				if !u.require(st, fr, False, "frame", in) {
+					return nil, true
+				}
+			}
+			if p.R.concrete || p.R.parent != nil {
+				u.unsupported("contract call modifying an element of a concrete or nested region")
+				return nil, false
+			}
+			nv := u.havoc(st, p.Typ, fn.Name()+".mod")
+			markFresh(u, st, nv)
+			if !u.writeElem(st, p.R, p.Idx, p.Path, p.Typ, nv) {
+				return nil, false
+			}
 		case SliceV:
 			if p.R != nil {
 				if !u.writable(p.R) && u.specMode == 0 {
